@@ -29,13 +29,16 @@ Record lview := mkV {
   v_clr : nat;              (* slots below this index of the attached record are known to be null *)
   v_scan : option scanv;
   v_cl : list claim;
-  v_seen : list nat         (* records known to be in thread_list_ *)
+  v_seen : list nat;        (* records known to be in thread_list_ *)
+  v_op : option ev;         (* start event of the operation in progress (open_op of the trace) *)
+  v_val : option (nat * nat * Z * option nat)
+                            (* last slot store (r, j, x) of the thread, and the source from which x was re-loaded since *)
 }.
 
 Record Aux := mkAux { a_view : nat -> lview; a_eff : nat -> option (list Z) }.
 Definition view (a : Aux) (t : nat) : lview := a_view a t.
 
-Definition v0 : lview := mkV None [] 0 None [] [].
+Definition v0 : lview := mkV None [] 0 None [] [] None None.
 Definition aux0 : Aux := mkAux (fun _ => v0) (fun _ => None).
 
 Definition upd_view (a : Aux) (t : nat) (v : lview) : Aux :=
@@ -144,15 +147,8 @@ Definition covered (H : nat) (sv : scanv) (r j : nat) : Prop :=
 
 Definition retire_once (tr : trace) : Prop := forall p, (cnt "retire" p tr <= 1)%Z.
 
-Definition resp_names : list string :=
-  ["attached"; "skip"; "detached"; "protected"; "assigned"; "cleared"; "unlinked"; "retired";
-   "scanned"; "touch"; "copied"].
-Definition is_resp (e : ev) : bool :=
-  match e with
-  | EvAcc KBegin _ _ => true
-  | EvCli n _ => existsb (String.eqb n) resp_names
-  | _ => false
-  end.
+Definition resp_names : list string := resp_names'.
+Definition is_resp (e : ev) : bool := is_resp' e.
 Definition resp_last (tr : trace) (t : nat) : Prop :=
   match last_ev tr t with None => True | Some e => is_resp e = true end.
 Definition idle (v : lview) : Prop := v_held v = [] /\ v_cl v = [].
@@ -224,5 +220,11 @@ Record Inv (c : cfgT) (g : G) (a : Aux) (tr : trace) : Prop := mkInv {
   i_size : ovf_cond c g tr -> forall r,
              List.length (r_ret (get_rec g r)) < cR c \/
              exists t cl, In cl (v_cl (view a t)) /\ shrinking_claim_on r cl;
-  i_noovf : ovf_cond c g tr -> forall p, cnt "overflow" p tr = 0%Z
+  i_noovf : ovf_cond c g tr -> forall p, cnt "overflow" p tr = 0%Z;
+  (* attachment, current operation, last slot store and client sources as the trace records them *)
+  i_tr : TrOK tr;
+  i_att : forall t, att_at tr t = v_rec (view a t);
+  i_op : forall t e0, v_op (view a t) = Some e0 -> open_op tr t = Some e0;
+  i_val : forall t r j x ok, v_val (view a t) = Some (r, j, x, ok) -> val_pat tr t r j x ok;
+  i_src : forall k, src_at tr k = g_srcs g k
 }.
